@@ -359,6 +359,16 @@ func (r *UnifiedMemoryModelRegistry) RemoveEndpoint(ctx context.Context, endpoin
 
 	r.removeEndpointFromUnifiedLocked(endpointURL)
 
+	// the unifier keeps its own catalogue (used for alias resolution): an empty listing
+	// tells it that the endpoint serves nothing any more
+	endpoint, exists := r.endpoints.Load(endpointURL)
+	if !exists {
+		endpoint = &domain.Endpoint{URLString: endpointURL, Name: endpointURL}
+	}
+	if _, err := r.unifier.UnifyModels(ctx, nil, endpoint); err != nil {
+		r.logger.Error("Failed to clear unifier state for removed endpoint", "endpoint", endpointURL, "error", err)
+	}
+
 	return nil
 }
 
